@@ -67,7 +67,7 @@ def carve_stage(db, vh):
     return ",".join(sorted(set(out))) or "none"
 
 
-def _worker(path, conn, wal=None, carve_too=True):
+def _worker(path, conn, wal=None, carve_too=True, strict=True):
     try:
         resource.setrlimit(resource.RLIMIT_AS, (RSS_LIMIT, RSS_LIMIT))
     except (ValueError, OSError):
@@ -79,9 +79,9 @@ def _worker(path, conn, wal=None, carve_too=True):
     try:
         db = vh = None
         if wal is None:
-            s, db, e = D.dump_db(path)
+            s, db, e = D.dump_db(path, strict=strict)
         else:
-            s, vh, e = D.dump_history(path, wal)
+            s, vh, e = D.dump_history(path, wal, strict=strict)
             db = vh.versions[0] if vh is not None else None
         if db is not None and carve_too:
             carve = carve_stage(db, vh)
@@ -95,10 +95,10 @@ def _worker(path, conn, wal=None, carve_too=True):
     conn.close()
 
 
-def run_impl(path, limit, wal=None, carve_too=True):
+def run_impl(path, limit, wal=None, carve_too=True, strict=True):
     ctx = mp.get_context("fork")
     parent, child = ctx.Pipe(duplex=False)
-    p = ctx.Process(target=_worker, args=(path, child, wal, carve_too))
+    p = ctx.Process(target=_worker, args=(path, child, wal, carve_too, strict))
     p.start()
     child.close()
     res = None
@@ -116,9 +116,9 @@ def run_impl(path, limit, wal=None, carve_too=True):
     return {"sha": res[0], "prefix": res[1], "frames": res[2], "time": res[3], "rss_kb": res[4], "full": res[5], "carve": res[6]}
 
 
-def run_model(path, frames, limit, wal=None):
-    op = (f"db.dump {path} mem=0 strict=1 size=- frames={frames}\n" if wal is None
-          else f"vh.dump {path} {wal} mem=0 strict=1 frames={frames}\n")
+def run_model(path, frames, limit, wal=None, strict=True):
+    op = (f"db.dump {path} mem=0 strict={int(strict)} size=- frames={frames}\n" if wal is None
+          else f"vh.dump {path} {wal} mem=0 strict={int(strict)} frames={frames}\n")
     try:
         p = subprocess.run([SDMODEL], input=op.encode(),
                            stdout=subprocess.PIPE, stderr=subprocess.PIPE, cwd=LEAN, timeout=limit)
@@ -208,15 +208,20 @@ def run(ctx, per_db_quick=130, per_db_thorough=600):
                     fh.write(walb[:cut])
                 jobs.append((h.db, {"kind": "wal.truncate", "at": cut}, limit, clean_sha, cfg, p))
 
+        # relaxed format checking must not relax the resource bounds: every damaged header field, and every eleventh other
+        # damaged copy, is also processed with strict_format_checking=False
+        jobs = [j + (True,) for j in jobs] + [j + (False,) for k, j in enumerate(jobs)
+                                              if str(j[1].get("kind", "")).startswith(("hdr.", "wal.header")) or k % 11 == 3]
+
         def one(ij):
             idx, job = ij
-            p, desc, limit, clean_sha, cfg, wal = job
+            p, desc, limit, clean_sha, cfg, wal, strict = job
             # quick tier: the carving stages run on the targeted cycles and on every third other damaged copy
             carve_too = ctx.thorough() or "cycle" in desc["kind"] or (idx % 3 == 0)
-            impl = run_impl(p, limit, wal, carve_too)
+            impl = run_impl(p, limit, wal, carve_too, strict)
             model = None
             if "sha" in impl:
-                model = run_model(p, impl["frames"], max(90.0, 6 * limit) * (10 if ctx.thorough() else 1), wal)
+                model = run_model(p, impl["frames"], max(90.0, 6 * limit) * (10 if ctx.thorough() else 1), wal, strict)
             return job, impl, model
 
         ex = ThreadPoolExecutor(max_workers=14)
@@ -224,8 +229,11 @@ def run(ctx, per_db_quick=130, per_db_thorough=600):
         results = ex.map(one, enumerate(jobs))
         # (results are judged as they arrive, so that an interrupted search keeps what it found; when the search
         # budget's alarm interrupts the wait the jobs still queued are not started)
-        for (p, desc, limit, clean_sha, cfg, wal), impl, model in _guarded_iter(results, ex):
-            case = {"corruption": desc, "cfg": {k: cfg[k] for k in ("page_size", "auto_vacuum", "rows", "churn")}, "seed": ctx.seed}
+        for (p, desc, limit, clean_sha, cfg, wal, strict), impl, model in _guarded_iter(results, ex):
+            case = {"corruption": desc, "cfg": {k: cfg[k] for k in ("page_size", "auto_vacuum", "rows", "churn")}, "seed": ctx.seed,
+                    "strict_format_checking": strict}
+            if not strict:
+                ctx.branch("relaxed-format-checking")
             ctx.evals += 1
             n0 = len(ctx.oracle_failures)
             if impl.get("timeout"):
@@ -279,16 +287,17 @@ def replay(ctx, data):
         return W.replay_scan(ctx, data)
     files = C.replay_files(data)
     if files:
-        impl = run_impl(files[0], 20.0)
+        case = (data.get("failure") or {}).get("case", {})
+        strict = bool(case.get("strict_format_checking", True))
+        impl = run_impl(files[0], 20.0, strict=strict)
         ctx.evals += 1
         ctx.nontrivial.add(files[0])
-        case = (data.get("failure") or {}).get("case", {})
         if impl.get("timeout"):
             ctx.oracle_fail("hang", "processing a damaged file did not finish within 20 s", case, "timeout", "<= 20 s")
         elif impl.get("crashed"):
             ctx.oracle_fail("crash", "the interpreter died on a damaged file", case, "crash", "result or exception")
         else:
-            model = run_model(files[0], impl["frames"], 30.0)
+            model = run_model(files[0], impl["frames"], 30.0, strict=strict)
             if model is None or hashlib.sha1(model.encode()).hexdigest() != impl["sha"]:
                 ctx.disagreements.append({"label": "db.dump(corrupt)", "op": files[0], "impl": impl["prefix"][:120],
                                           "model": (model or "timeout")[:120]})
